@@ -441,3 +441,4 @@ def _r20_5(res, P, cfgname):
 LEVEL = LEVEL + ' Also (R20.3b) FBig::from_parts_const hands on min_precision on every return path, (R20.7) the macro crate checks nothing in debug assertions only (profile independence); (R20.6w, thorough) 16 literals outside the grammar are rejected at compile time (with compiling twins).'
 TECHNIQUE = 'call-graph reachability from the proc-macro entries to the run-time parsers; error-discipline rule on Result<_, ParseError>; attribute-carried-on-all-paths dataflow over the token generators; threshold / conversion pairing; debug-region inventory; compile-fail witnesses with twins'
 LEVEL = LEVEL + ' Also (R20.2) no Result of any error type is turned into a value in the macro crate; (R20.8) the canonical and the relaxed branch of the ratio literal parser build their value identically.'
+LEVEL = LEVEL + ' (R20.4) the macro crate converts literal parts only to fixed-width types (u8/u16/u32): a conversion to a host-sized type would make the expansion depend on the build machine.'
